@@ -294,6 +294,11 @@ func streamConc(c *Ctx) {
 						}
 					}
 					inner.Wait()
+					// a finished stream asked again keeps saying io.EOF and touches nothing that other
+					// calls may own by now
+					if _, again := s.Receive(); !errors.Is(again, io.EOF) {
+						fail("conc-call-failed", desc, fmt.Sprint(again), "Receive after the clean end of the stream must keep reporting io.EOF")
+					}
 					_ = s.CloseResponse()
 				default:
 					cl := set.fail
